@@ -619,6 +619,23 @@ def many_comment_cases(rng, n, prefix="mc"):
     return cases, meta
 
 
+def control_char_cases(rng, n, prefix="cc"):
+    """listed regions whose lines contain control characters, quotes and backslashes (JSON escaping:
+    \\b \\f \\r \\t, \\u00XX with every hex digit, \\" and \\\\) and DEL / NEL / U+2028"""
+    cases, meta = [], {}
+    e, f = G.EXPIRED, G.FUTURE
+    specials = [chr(c) for c in list(range(1, 10)) + list(range(11, 32))] + ["\x7f", "\u0085", "\u2028", "\u2029", '"', "\\", "/", "\u00ad"]
+    for i in range(n):
+        ds, de = rng.choice([("<", ">"), ("/* <", "> */"), ("<!-- <", "> -->")])
+        def junk():
+            return "".join(rng.choice(specials + ["a", "b", " "]) for _ in range(rng.randint(1, 6)))
+        lines = ["head " + junk(), ds + "tl " + rng.choice([e, f]) + de + junk(), "x" + junk(), junk() + ds + "/tl" + de, "tail" + junk()]
+        cid = f"{prefix}{i}"
+        cases.append(G.dcase(cid, ds, de, "\n".join(lines) + "\n", G.Cfg(targets=("x",))))
+        meta[cid] = {"stream": "control-chars", "strict": False}
+    return cases, meta
+
+
 def wrapper_tag_cases(rng, n, prefix="wt"):
     """ready unwrap-block elements with the tags of other (pending / ready) elements ON their wrapper
     lines (outside the C15 space: only the clauses proved for every source are applied to them)"""
@@ -747,7 +764,8 @@ def gen_docs(rng, tier, n_quick=2500, n_thorough=40000, **kw):
     n = n_quick if tier == "quick" else n_thorough
     ex = exhaustive_cases(rng, "x", [("<", ">"), ("|", "|")], 3 if tier == "quick" else 4)
     return merge(corpus_cases(), ex, doc_cases(rng, n, "d", **kw), wrapper_tag_cases(rng, 300 if tier == "quick" else 3000, "wtg"),
-                 many_comment_cases(rng, 12 if tier == "quick" else 200))
+                 many_comment_cases(rng, 12 if tier == "quick" else 200),
+                 control_char_cases(rng, 60 if tier == "quick" else 1000))
 
 
 TAG_VALUES = ["", "v", "a b", "x=y", "it's", 'say "hi"', "skip", "unwrap-block", "a\nb", "<", "/* <", "to", "あ", "  ", "name=x skip"]
@@ -883,7 +901,7 @@ def gen_c05(rng, tier):
         for off in ("+00:00", "+0900"):
             for now in (G.NOW, 4102444800 * 2):
                 add(to, off, now, False, f"malformed to {to!r}")
-    for off in ("", "UTC", "+9", "0900", "+24:00", "+09:60", "Z", "+0a:00", "09:00", "+", "+09", "+09:0"):
+    for off in ("", "UTC", "+9", "0900", "+24:00", "-24:00", "+2400", "-2400", "+99:59", "+09:60", "Z", "+0a:00", "09:00", "+", "+09", "+09:0"):
         for now in (G.NOW, 4102444800 * 2):
             add("2000-01-01 00:00:00", off, now, False, f"malformed offset {off!r}")
     # lenient forms chrono accepts: no expectation from the oracle, the model must agree with the code
@@ -892,12 +910,50 @@ def gen_c05(rng, tier):
                "2000-12-31 23:59:60", "0000-01-01 00:00:00", "9999-12-31 23:59:59", "+262142-12-31 23:59:59", "+262143-01-01 00:00:00",
                "-262143-01-01 00:00:00", "-262144-01-01 00:00:00", "2000-01-01 00:00:00", "2000-01-01　00:00:00", "99999999999999999999-01-01 00:00:00",
                "2000-01-01 00:00:00 \n", "2000-001-01 00:00:00", "02000-01-01 00:00:00", "200-01-01 00:00:00", "20-01-01 00:00:00"]
+    # every whitespace character chrono's scanner skips (White_Space: TAB LF VT FF CR, U+0085, U+00A0, U+1680,
+    # U+2000..U+200A, U+2028, U+2029, U+202F, U+205F, U+3000) at the places where it is skipped
+    for wsc in ["\t", "\n", "\x0b", "\x0c", "\r", "\u0085", "\u00a0", "\u1680", "\u2000", "\u2005", "\u200a", "\u200b", "\u2028",
+                "\u2029", "\u202f", "\u205f", "\u3000", "\u2060", "\ufeff", "\x1f", "\x08", "\x0e"]:
+        lenient.extend([wsc + "2000-01-01 00:00:00", "2000-01-01" + wsc + "00:00:00", "2000-01-01 00:00:00" + wsc,
+                        "2000-01-01 " + wsc + "00:00:00"])
+    # calendar: the last days of every month in years of every leap class; signs and letters in fields
+    cal = []
+    for y in ("1900", "2000", "2001", "2004", "2100", "2400", "0004", "0100", "0400", "-0004", "-0100"):
+        for mth in range(0, 14):
+            for d in (0, 1, 28, 29, 30, 31, 32):
+                cal.append(f"{y}-{mth:02d}-{d:02d} 00:00:00")
+    cal += ["2000-+1-01 00:00:00", "2000--1-01 00:00:00", "2000-01-+1 00:00:00", "2000-01--1 00:00:00", "2000-01-01 +1:00:00",
+            "2000-01-01 -1:00:00", "2000-01-01 00:+1:00", "2000-01-01 00:-1:00", "2000-01-01 00:00:+1", "2000-01-01 00:00:-1",
+            "2000-01-01 23:59:59", "2000-01-01 24:00:00", "2000-01-01 23:60:00", "2000-01-01 00:59:60", "2000-01-01 00:00:59"]
+    for to in cal:
+        for off in ("+00:00", "-1200"):
+            cid = f"c{k}"
+            k += 1
+            cases.append(G.tcase(cid, to, off, 8000000000000))     # far in the future: ready exactly when `to` parses
+            meta[cid] = {"stream": "lenient"}
+    for off in ("+a0:00", "+0a:00", "+ 9:00", "+9 :00", "+09:a0", "+09:0a", "+-9:00", "+09:-1", "-00:00", "+00:59", "+00:60", "+23:60", "+2360"):
+        for now in (G.NOW, 946684800, 946684799, 946688400, 946681200):
+            cid = f"o{k}"
+            k += 1
+            cases.append(G.tcase(cid, "2000-01-01 00:00:00", off, now))
+            meta[cid] = {"stream": "lenient"}
     for to in lenient:
         for off in ("+00:00", "-0530", "+23:59", "-23:59", " +09:00", "+09 00", "+09::00", "+09: 00", "−09:00", "+0900 "):
             for now in (G.NOW, 946684800, 946684799, 946684801, 978307200, 978307199):
                 cid = f"l{k}"
                 k += 1
                 cases.append(G.tcase(cid, to, off, now))
+                meta[cid] = {"stream": "lenient"}
+    # the ends of chrono's year range, with current instants on both sides of them
+    for to, base in (("+262142-12-31 23:59:59", 8210266876799), ("-262143-01-01 00:00:00", -8334601228800),
+                     ("+262142-12-31 00:00:00", 8210266790400), ("+262143-01-01 00:00:00", 8210266876800)):
+        for off in ("+00:00", "-0001", "+0001", "+23:59", "-23:59"):
+            for dn in (-86400 * 2, -1, 0, 1, 86400 * 2):
+                if not (-8334601228800 <= base + dn <= 8210266876799):
+                    continue      # not representable as a chrono DateTime<Utc>: no such current instant exists
+                cid = f"y{k}"
+                k += 1
+                cases.append(G.tcase(cid, to, off, base + dn))
                 meta[cid] = {"stream": "lenient"}
     # random valid grid
     for i in range(1500 if tier == "quick" else 30000):
